@@ -138,6 +138,19 @@ class Gen:
         if mode == "wild" and r.random() < 0.3:
             s = s[:r.choice([127, 128, 200])] if len(s) > 127 else s + "a" * r.choice([0, 127, 130])
             s = s.encode()[:255].decode(errors="ignore")
+        # characters whose code points occur as literals in the sources (new literals first), at the start,
+        # at the end or inside
+        def scalar(v):
+            return 0 < v < 0x110000 and not (0xD800 <= v <= 0xDFFF)
+        newc = [v for v in self.dict.get("new_ints", []) if scalar(v) and v >= 0x20]
+        allc = [v for v in self.dict["ints"] if scalar(v) and v >= 0x80]
+        if (newc and r.random() < 0.6) or (allc and r.random() < 0.25):
+            ch = chr(r.choice(newc if (newc and r.random() < 0.8) else (allc or newc)))
+            pos = r.choice([0, 0, len(s), r.randrange(len(s) + 1)])
+            t = s[:pos] + ch + s[pos:]
+            while len(t.encode()) > 255 or (mode != "wild" and len(t) > 127):
+                t = t[:pos + 1] + t[pos + 2:] if len(t) > pos + 1 else t[:-1]
+            s = t
         return s.encode()
 
     def sig_pool(self, gnss):
@@ -336,6 +349,18 @@ class Gen:
                 ent.append((s, table[i % len(table)]))
             for j in range(min(cap - k, r.choice([0, 3]))):
                 ent.append(((s + 1 + j) % (maxsat + 1), r.choice(table)))
+        elif shape.startswith("capsats"):
+            # capacity entries spread round-robin over k satellites (distinct signals inside a satellite)
+            k = min(int(shape[7:]), maxsat + 1)
+            per = {}
+            i = 0
+            while len(ent) < cap and i < cap * 4:
+                s = i % k
+                j = per.get(s, 0)
+                if j < len(table):
+                    ent.append((s, table[j]))
+                    per[s] = j + 1
+                i += 1
         elif shape == "cap":
             for s in range(maxsat + 1):
                 for g in table:
